@@ -908,6 +908,9 @@ func (o *ovsdbClient) MonitorCancel(ctx context.Context, cookie MonitorCookie) e
 func (o *ovsdbClient) Monitor(ctx context.Context, monitor *Monitor) (MonitorCookie, error) {
 	cookie := newMonitorCookie(o.primaryDBName)
 	db := o.databases[o.primaryDBName]
+	// same order as connect() and MonitorCancel(): rpcMutex, then monitorsMutex
+	o.rpcMutex.RLock()
+	defer o.rpcMutex.RUnlock()
 	db.monitorsMutex.Lock()
 	defer db.monitorsMutex.Unlock()
 	verifPoint("Monitor.monitorsLocked")
@@ -928,15 +931,11 @@ func newMonitorRequest(data *mapper.Info, fields []string, conditions []ovsdb.Co
 	return &ovsdb.MonitorRequest{Columns: columns, Where: conditions, Select: ovsdb.NewDefaultMonitorSelect()}, nil
 }
 
-// monitor must only be called with a lock on monitorsMutex
+// monitor must only be called with rpcMutex (read or write) and a lock on
+// monitorsMutex held, in that order
 //
 //gocyclo:ignore
 func (o *ovsdbClient) monitor(ctx context.Context, cookie MonitorCookie, reconnecting bool, monitor *Monitor) error {
-	// if we're reconnecting, we already hold the rpcMutex
-	if !reconnecting {
-		o.rpcMutex.RLock()
-		defer o.rpcMutex.RUnlock()
-	}
 	if o.rpcClient == nil {
 		return ErrNotConnected
 	}
@@ -958,18 +957,22 @@ func (o *ovsdbClient) monitor(ctx context.Context, cookie MonitorCookie, reconne
 	for _, o := range monitor.Tables {
 		_, ok := typeMap[o.Table]
 		if !ok {
+			db.modelMutex.RUnlock()
 			return fmt.Errorf("type for table %s does not exist in model", o.Table)
 		}
 		model, err := db.model.NewModel(o.Table)
 		if err != nil {
+			db.modelMutex.RUnlock()
 			return err
 		}
 		info, err := db.model.NewModelInfo(model)
 		if err != nil {
+			db.modelMutex.RUnlock()
 			return err
 		}
 		request, err := newMonitorRequest(info, o.Fields, o.Conditions)
 		if err != nil {
+			db.modelMutex.RUnlock()
 			return err
 		}
 		requests[o.Table] = *request
@@ -1161,9 +1164,11 @@ func (o *ovsdbClient) watchForLeaderChange() error {
 	m.Method = ovsdb.ConditionalMonitorRPC
 	m.Tables = []TableMonitor{{Table: "Database"}}
 	db := o.databases[serverDB]
+	o.rpcMutex.RLock()
 	db.monitorsMutex.Lock()
-	defer db.monitorsMutex.Unlock()
 	err := o.monitor(context.Background(), newMonitorCookie(serverDB), false, m)
+	db.monitorsMutex.Unlock()
+	o.rpcMutex.RUnlock()
 	if err != nil {
 		return err
 	}
@@ -1372,20 +1377,22 @@ func (o *ovsdbClient) handleDisconnectNotification() {
 	o.rpcMutex.Unlock()
 
 	for _, db := range o.databases {
+		// locks are taken in the order used everywhere else:
+		// monitorsMutex, modelMutex, cacheMutex
+		db.monitorsMutex.Lock()
+		defer db.monitorsMutex.Unlock()
+		db.monitors = make(map[string]*Monitor)
+
+		db.modelMutex.Lock()
+		defer db.modelMutex.Unlock()
+		db.model = model.NewPartialDatabaseModel(db.model.Client())
+
 		db.cacheMutex.Lock()
 		defer db.cacheMutex.Unlock()
 		db.cache = nil
 		// need to defer updates if/when we reconnect and clear any stale updates
 		db.deferUpdates = true
 		db.deferredUpdates = make([]*bufferedUpdate, 0)
-
-		db.modelMutex.Lock()
-		defer db.modelMutex.Unlock()
-		db.model = model.NewPartialDatabaseModel(db.model.Client())
-
-		db.monitorsMutex.Lock()
-		defer db.monitorsMutex.Unlock()
-		db.monitors = make(map[string]*Monitor)
 	}
 	o.metrics.numMonitors.Set(0)
 
